@@ -144,10 +144,15 @@ Definition refresh_order (b : base) (te : Z * ev) : list rule :=
   match snd te with
   | EIssue i op kind inner root gid key val exp =>
       let x := inst_of b i in
-      if (kind =? kUpdate) && (inner =? sHeartbeat) && io_flag x && (tok_of b val =? io_tok x) then
-        when (negb ((0 <=? io_hb_te x) || (gen_hb_update_timeout (ic_H (cfg_of b i)) <=? fst te - io_hb_ta x))) 2073 ++
-        when (negb (match io_views x with (tk, r) :: _ => (tk =? io_tok x) && (r =? exp) | [] => false end)) 2074
+      if (kind =? kUpdate) && (inner =? sHeartbeat) then
+        if io_flag x && (tok_of b val =? io_tok x) then
+          when (negb ((0 <=? io_hb_te x) || (gen_hb_update_timeout (ic_H (cfg_of b i)) <=? fst te - io_hb_ta x))) 2073 ++
+          when (negb (match io_views x with (tk, r) :: _ => (tk =? io_tok x) && (r =? exp) | [] => false end)) 2074
+        else [2075]   (* rule 2075: only a claiming instance refreshes, with the token of its running term *)
       else []
+  (* rule 2076: every term rests on a newer write than the previous one *)
+  | EFlag i fl _ _ gid =>
+      if zb fl then match aget (b_rets b) gid with Some r => when (lr_rev r <=? io_acq_rev (inst_of b i)) 2076 | None => [] end else []
   | _ => []
   end.
 
